@@ -53,7 +53,7 @@ CLAIMS = {
         '6/C07',
     ),
     'C08': (
-        "Lean 4 theorems: glob_spec (for ALL pattern and subject strings the emitted regex, interpreted by the model's matcher for exactly the emitted class, matches iff the documented glob meaning holds) and glob_meaning (existential meaning: literal text in full, leading * any prefix, trailing * any suffix, every other character literal); exclusion_exact_modules / _files / _imports / exclusion_exact_modules_opts (a scan with more patterns = the scan with fewer minus every sub tree rooted at a newly matching path; every other module and every import between remaining modules unchanged), excluded_contributes_no_module, unexcluded_module_remains, more_patterns_exclude_more; the reference scan exists: no_type_error, no_patterns_scan (exclusions=() means nothing is excluded; repaired defect F-C08a). Tie to /repo on every run: correspondence run (real code vs compiled Lean model vs Lean specification on generated inputs, exhaustive where stated in the evidence): exhaustive pattern x subject table against Python's re (length <= 4 quick / <= 6 thorough), trees x exclusion tuples in glob and regex form against the scan with exclusions=().",
+        "Lean 4 theorems: glob_spec (for ALL pattern and subject strings the emitted regex, interpreted by the model's matcher for exactly the emitted class, matches iff the documented glob meaning holds) and glob_meaning (existential meaning: literal text in full, leading * any prefix, trailing * any suffix, every other character literal); exclusion_exact_modules / _files / _imports / exclusion_exact_modules_opts (a scan with more patterns = the scan with fewer minus every sub tree rooted at a newly matching path; every other module and every import between remaining modules unchanged), excluded_contributes_no_module, unexcluded_module_remains, more_patterns_exclude_more; the reference scan exists: no_type_error, no_patterns_scan (exclusions=() means nothing is excluded; repaired defect F-C08a). Files and directories are matched by their path in the scanned tree (repaired defect F-C08b: files used to be matched by their resolved path). Tie to /repo on every run: correspondence run (real code vs compiled Lean model vs Lean specification on generated inputs, exhaustive where stated in the evidence): exhaustive pattern x subject table against Python's re (length <= 4 quick / <= 6 thorough), trees x exclusion tuples in glob and regex form against the scan with exclusions=().",
         "regex_exclusions are the uninterpreted relation mt (anchoring at the start is a property of re.match); that Python's re interprets the emitted pattern as the model's matcher does rests on the exhaustive table. Carve-out: an excluded module that is the sub-module target of `from P import n` whose package survives (the statement then names P). Trusted: Lean kernel, harness/driver.",
         TECH,
         '6/C08',
@@ -83,7 +83,7 @@ CLAIMS = {
         '6/C12',
     ),
     'C13': (
-        'Lean 4 theorems over ALL call sequences: rule_history_raises / rule_history_error_at / rule_history_complete (a Rule history the specification automaton classifies incomplete, contradictory or erroneous never yields a verdict and is rejected at the offending call), layer_rule_history, diagram_history_raises / _complete / _no_tags (DiagramRule as a state machine); names: unknown_name, anything_unknown_name (also for subjects the alias conversion drops), layer_unknown_module, diagram_unknown_component / diagram_lookup_error_iff, too_deep_name (level-limited architectures); patterns: no_match, no_match_object, no_match_wins_over_unknown_name, layer_regex_no_match; requests: options (the option table), module_path_outside_root, options_before_paths, module_objects_outside_root. Regenerated on every run from pytestarch.py and rule.py: Pta.C13.generated_config_agree. Tie to /repo on every run: correspondence run (real code vs compiled Lean model vs Lean specification on generated inputs, exhaustive where stated in the evidence): every call sequence of length <= 5 over the Rule / LayerRule / DiagramRule vocabularies, mutations of complete chains, empty-list specifications, all option-presence combinations, diagrams with absent components next to violated rules, interpreter-mode probe.',
+        'Lean 4 theorems over ALL call sequences: rule_history_raises / rule_history_error_at / rule_history_complete (a Rule history the specification automaton classifies incomplete, contradictory or erroneous never yields a verdict and is rejected at the offending call), layer_rule_history, diagram_history_raises / _complete / _no_tags (DiagramRule as a state machine); names: unknown_name, anything_unknown_name (also for subjects the alias conversion drops), layer_unknown_module, diagram_unknown_component / diagram_lookup_error_iff / diagram_file_lookup_error_iff (a diagram rule raises a lookup error exactly when some component is not a module; since the repair of F-C13c also for a component drawn alone), too_deep_name (level-limited architectures); patterns: no_match, no_match_object, no_match_wins_over_unknown_name, layer_regex_no_match; requests: options (the option table), module_path_outside_root, options_before_paths, module_objects_outside_root. Regenerated on every run from pytestarch.py and rule.py: Pta.C13.generated_config_agree. Tie to /repo on every run: correspondence run (real code vs compiled Lean model vs Lean specification on generated inputs, exhaustive where stated in the evidence): every call sequence of length <= 5 over the Rule / LayerRule / DiagramRule vocabularies, mutations of complete chains, empty-list specifications, all option-presence combinations, diagrams with absent components next to violated rules, interpreter-mode probe.',
         'The Python exception classes are mapped to ErrKind by the harness. Trusted: Lean kernel, harness/driver, the guard translator.',
         TECH,
         '6/C13',
